@@ -52,9 +52,9 @@ POOL = {
     E.BOOL: [True, False],
     E.STR: ["", "a", "b", "abc", "ABC"],
     E.I32: [0, 1, -1, 5, 9, 10, 11, -9, -10, -11, 127, 128, -128, -129, 32767, 32768, -32768, -32769,
-            2**31 - 1, -2**31],
+            2**24 + 1, 2**31 - 1, -2**31],
     E.I64: [0, 1, -1, 9, 10, 11, -10, -11, 2**31, -2**31 - 1, 2**53 + 1, 2**63 - 1, -2**63],
-    E.U32: [0, 1, 5, 9, 10, 11, 255, 256, 65535, 65536, 2**32 - 1],
+    E.U32: [0, 1, 5, 9, 10, 11, 255, 256, 65535, 65536, 2**24, 2**24 + 1, 2**32 - 1],
     E.U64: [0, 1, 9, 10, 11, 2**32, 2**53 + 1, 2**64 - 1],
     E.F32: [F(x) for x in (0.0, -0.0, 1.0, 9.5, 10.0, -10.0, 3.4028234663852886e38, float("inf"),
                            float("-inf"))] + [0x7FC00000, F(10.0) + 1, F(10.0) - 1, F(-10.0) + 1,
@@ -114,6 +114,8 @@ def metas_for(t):
         shapes += [(E.val(other, om[0]), E.val(other, om[1]))]
         if k in (E.I32, E.U32):
             shapes += [(E.val(E.F64, D(1.0)), E.val(E.F64, D(10.0)))]
+            # a float bound at 2^24: integers above it are not representable in f32
+            shapes += [(None, E.val(E.F32, F(16777216.0)))]
         if k in (E.I64, E.U64):
             shapes += [(E.val(E.F64, D(1.0)), None)]
     als = [None, E.val(ARR[k], ALLOWED[k])]
